@@ -143,6 +143,26 @@ def run(tier, seed, model):
         if not mkey or bytes(mkey[0]) != rfb._vnc_des(pw):
             camp.model_mismatches.append({"property": "C14", "case": {"password": [ord(c) for c in pw]},
                                           "what": f"_vnc_des({pw!r}) = {rfb._vnc_des(pw).hex()} but the model gives {mkey}"})
+    # ---- 1b. the same through the real handshake, for the three client classes (the password may be empty: 8 NUL bytes)
+    import rfbreal
+    for variant in (0, 1, 2):
+        for pw in ["", "a", "secret", "longerthan8chars"]:
+            chal = bytes(rng.getrandbits(8) for _ in range(16))
+            stream = b"RFB 003.008\n\x01\x02" + chal
+            for chunks in ([stream], [stream[:13], stream[13:20], stream[20:]]):
+                camp.evaluations += 1
+                camp.count("handshake-driven:" + ["base", "library", "cli"][variant])
+                r = rfbreal.run_real(rfbreal.Cfg(variant=variant, password=pw), chunks)
+                written = b"".join(e[1] for e in r["events"] if e[0] == "W")
+                want = DES.new(spec_key(pw), DES.MODE_ECB).encrypt(chal)
+                other = [e[0] for e in r["events"] if e[0] not in ("W",)]
+                if written[-16:] != want or len(written) != 12 + 1 + 16 or other:
+                    camp.oracle_failures.append({"kind": "oracle", "property": "C14",
+                                                 "case": {"password": [ord(c) for c in pw], "challenge": chal.hex(), "variant": variant},
+                                                 "what": f"{['RFBClient', 'VNCDoToolClient', 'VNCDoCLIClient'][variant]} with password {pw!r}: after the "
+                                                         f"challenge it wrote {written[13:].hex() or 'nothing'} (other events {other}); a server expects "
+                                                         f"{want.hex()}"})
+                    return camp
     # ---- 2. Apple Remote Desktop
     m_ard = 250 if tier == "quick" else 6000
     reqs, meta = [], []
